@@ -230,8 +230,9 @@ def run(ctx):
             if not hyp:
                 mism.append(dict(oracle_fail=False, case=case_js, failed_clauses=["the LAPACK svd oracle violates its specification"]))
                 continue
-            bad = svd_oracle_check(Dd, Ud, Sd, Vd, k, sv, which, tol, True)
-            sterms.append(f"mkscase {m} {n} (SRDense {r} {L.qmat(oU)} {L.qvec(oS)} {L.qmat(oV)}) {L.qc_lit(0)} {Sd.shape[0]} {L.qmat(Ud)} {L.qvec(np.diag(Sd))} {L.qmat(Vd)}")
+            bad = svd_oracle_check(Dd, Ud, Sd, Vd, k, sv, which, tol, k == r)
+            ksl = "None" if "svd_dense_k_ignored" in present else f"(Some (({k}), {which}))"
+            sterms.append(f"mkscase {m} {n} (SRDense {ksl} {r} {L.qmat(oU)} {L.qvec(oS)} {L.qmat(oV)}) {L.qc_lit(0)} {Sd.shape[0]} {L.qmat(Ud)} {L.qvec(np.diag(Sd))} {L.qmat(Vd)}")
             smeta.append(dict(case=case_js, bad=bad, got=dict(sigma=np.diag(Sd).tolist())))
         else:
             tall = (n <= m) or alg == "LOBPCG"
@@ -276,15 +277,32 @@ def run(ctx):
         k = n if "svd_dense_k_ignored" in present else rnd.randint(1, n)
         which = rnd.choice(["LM", "SM"])
         algn = rnd.choice(["none", "Auto"] + ([] if steer["svd_structural_ambiguous"] else ["DenseSVD", "Lanczos"]))
+        ksl = "None" if "svd_dense_k_ignored" in present else f"(Some (({k}), {which}))"
         if kind == "ident":
             A, D = ops.Identity((n, n), getattr(np, dt)), np.eye(n)
-            rule = "SRIdent"
+            rule = f"(SRIdent {ksl})"
         else:
             neg_ok = "svd_diag_negative_sigma" not in present
-            d = np.array([(rnd.randint(1, 9) * (rnd.choice([-1, 1]) if neg_ok else 1)) / rnd.choice([1, 2, 4]) for _ in range(n)], dtype=getattr(np, dt))
+            d = np.array([complex((rnd.randint(1, 9) * (rnd.choice([-1, 1]) if neg_ok else 1)) / rnd.choice([1, 2, 4]),
+                                  (rnd.randint(-4, 4) / 2) if (neg_ok and cplx) else 0) for _ in range(n)])
+            d = d.astype(getattr(np, dt)) if cplx else d.real.astype(getattr(np, dt))
             A, D = ops.Diagonal(d), np.diag(d)
-            rule = f"(SRDiag {L.qvec(d)})"
-        case_js = dict(fn="svd", kind=kind, n=n, dt=dt, k=k, which=which, alg=algn, d=np.diag(D).real.tolist())
+            if neg_ok:
+                # oracle data of the repaired rule: |d|, d/|d| (numpy's values) and the positions it keeps
+                ab = np.abs(d)
+                ph = np.where(ab > 0, d / np.where(ab > 0, ab, np.ones_like(ab)), np.ones_like(d))
+                if np.abs(ph * ab - d).max() > 1e-12 * max(1.0, ab.max()) or np.abs(np.abs(ph) - 1).max() > 1e-12:
+                    mism.append(dict(oracle_fail=False, harness_error="abs / phase oracle violates d = ph*|d|, |ph| = 1"))
+                    continue
+                if "svd_dense_k_ignored" in present:
+                    idx = list(range(n))
+                else:
+                    order = np.argsort(ab)
+                    idx = list(order[n - k:] if which == "LM" else order[:k])
+                rule = f"(SRDiagSigned [{';'.join(str(int(x)) + '%nat' for x in idx)}] {L.qvec(ab)} {L.qvec(ph)})"
+            else:
+                rule = f"(SRDiag {L.qvec(d)})"
+        case_js = dict(fn="svd", kind=kind, n=n, dt=dt, k=k, which=which, alg=algn, d=[str(x) for x in np.diag(D)])
         evals += 1
         bump(hist, f"svd:{kind}:{algn}")
         distinct.add(core.digest(case_js))
@@ -295,8 +313,8 @@ def run(ctx):
         except Exception as e:
             mism.append(dict(oracle_fail=True, case=case_js, got=f"{type(e).__name__}: {str(e)[:200]}", failed_clauses=["raised on an input the model accepts"]))
             continue
-        bad = svd_oracle_check(D.astype(np.complex128), Ud, Sd, Vd, k, np.abs(np.diag(D)), which, 1e-12, True)
-        sterms.append(f"mkscase {n} {n} {rule} {L.qc_lit(0)} {Sd.shape[0]} {L.qmat(Ud)} {L.qvec(np.diag(Sd))} {L.qmat(Vd)}")
+        bad = svd_oracle_check(D.astype(np.complex128), Ud, Sd, Vd, k, np.abs(np.diag(D)), which, 1e-12, k == n)
+        sterms.append(f"mkscase {n} {n} {rule} {L.qc_lit(1e-30)} {Sd.shape[0]} {L.qmat(Ud)} {L.qvec(np.diag(Sd))} {L.qmat(Vd)}")
         smeta.append(dict(case=case_js, bad=bad, got=dict(sigma=np.diag(Sd).tolist())))
 
     # ---------------- pinv, structural rules (exact reciprocals)
